@@ -168,9 +168,6 @@ REVIEWED: Dict[Tuple[str, str], tuple] = {
     (R + "references/RF03.py::_check_references",
      "next(iter_raw_references(ref, dialect_name))"):
         ("TEST", "qualification(ref) == 'qualified' means len(list(iter_raw_references(ref))) > 1", "this_ref_type == 'qualified'"),
-    (R + "structure/ST02.py::Rule_ST02._eval",
-     "next((index for index, segment in enumerate(condition_expression.segments) if segment.raw_upper == 'IS'))"):
-        ("TEST", "'IS' is in the set of raw_upper of the same condition_expression.segments", "issubset(condition_expression_segments_raw)"),
     (R + "structure/ST05.py::Rule_ST05._lint_query",
      "next(anchor.recursive_crawl('keyword', 'symbol'))"):
         ("GRAMMAR", "anchor is the first child of the from_expression_element of a nested select: a bracketed/table_expression (contains bracket symbols / SELECT keyword) or a keyword itself (recursive_crawl allows self)"),
@@ -1250,6 +1247,45 @@ def _r05b(chk) -> None:
                         chk.count("R05b.guarded_by_membership_test")
                         chk.ok("R05b", construct, detail + " [x in seq]")
                         continue
+                # (ii-b) next(<x for v in ITER if v.ATTR == C>): a dominating `C in S` / `{.., C, ..}.issubset(S)` where S
+                # is the set of v.ATTR over the SAME iterable establishes that an element passes the filter
+                if kind == "next" and isinstance(n.args[0], ast.GeneratorExp) and len(n.args[0].generators) == 1 and len(n.args[0].generators[0].ifs) == 1 and f is not None and isinstance(f, FuncNode):
+                    g0 = n.args[0].generators[0]
+                    flt = g0.ifs[0]
+                    it0 = g0.iter
+                    if isinstance(it0, ast.Call) and isinstance(it0.func, ast.Name) and it0.func.id == "enumerate" and it0.args:
+                        it0 = it0.args[0]
+                    tgt_names = {x.id for x in ast.walk(g0.target) if isinstance(x, ast.Name)}
+                    attr = cval = None
+                    if isinstance(flt, ast.Compare) and len(flt.ops) == 1 and isinstance(flt.ops[0], ast.Eq) and isinstance(flt.left, ast.Attribute) \
+                            and isinstance(flt.left.value, ast.Name) and flt.left.value.id in tgt_names and isinstance(flt.comparators[0], ast.Constant):
+                        attr, cval = flt.left.attr, flt.comparators[0].value
+                    if attr is not None:
+                        def _same_domain(sexpr, at) -> bool:
+                            os2 = origins(cfg, sexpr, at) if isinstance(sexpr, ast.Name) else []
+                            exprs = [o.expr for o in os2 if o.kind == "expr"] if os2 else [sexpr]
+                            okk = bool(exprs)
+                            for e2 in exprs:
+                                if not (isinstance(e2, (ast.SetComp, ast.ListComp, ast.GeneratorExp)) and len(e2.generators) == 1 and not e2.generators[0].ifs
+                                        and isinstance(e2.elt, ast.Attribute) and e2.elt.attr == attr and isinstance(e2.elt.value, ast.Name)
+                                        and norm(e2.generators[0].iter) == norm(it0)):
+                                    okk = False
+                            return okk
+                        found = False
+                        for e, pol in conds:
+                            if not pol:
+                                continue
+                            if isinstance(e, ast.Compare) and len(e.ops) == 1 and isinstance(e.ops[0], ast.In) and isinstance(e.left, ast.Constant) and e.left.value == cval \
+                                    and _same_domain(e.comparators[0], cfg.stmt_of(e) or st):
+                                found = True
+                            if isinstance(e, ast.Call) and isinstance(e.func, ast.Attribute) and e.func.attr == "issubset" and len(e.args) == 1 \
+                                    and isinstance(e.func.value, (ast.Set, ast.List, ast.Tuple)) and any(isinstance(x, ast.Constant) and x.value == cval for x in e.func.value.elts) \
+                                    and _same_domain(e.args[0], cfg.stmt_of(e) or st):
+                                found = True
+                        if found:
+                            chk.count("R05b.guarded_by_membership_test")
+                            chk.ok("R05b", construct, detail + " [C in {v.attr for v in the same iterable}]")
+                            continue
                 # (iii) frozen table
                 ent = REVIEWED.get(key)
                 if ent is not None:
@@ -1388,6 +1424,12 @@ LT08 = "src/sqlfluff/rules/layout/LT08.py"
 LT07 = "src/sqlfluff/rules/layout/LT07.py"
 
 VARIANTS = [
+    Variant(
+        "st02-null-gate-looks-at-every-raw-segment", "src/sqlfluff/rules/structure/ST02.py",
+        "                segment.raw_upper for segment in condition_expression.segments\n",
+        "                segment.raw_upper for segment in condition_expression.raw_segments\n",
+        "R05b", "Rule_ST02._eval", "seeded C05-5: `CASE WHEN a = (b IS NULL) THEN a ELSE c END` -> StopIteration",
+    ),
     Variant(
         "comment-mover-builds-indent-unconditionally", "src/sqlfluff/utils/reflow/reindent.py",
         "        if current_indent:\n            new_segments += (WhitespaceSegment(current_indent),)\n",
